@@ -55,6 +55,8 @@ def count_digits(number: NumericValueType) -> tuple[int, int]:
         return len(integer_part.lstrip('0')), len(decimal_part.rstrip('0'))
 
     significand = significand.strip('0')
+    if significand in ('', '.'):
+        return 0, 0  # a zero value, e.g. Decimal('0E-7')
     exponent = int(_exponent)
 
     num_digits = len(significand) - 1 if '.' in significand else len(significand)
